@@ -104,7 +104,11 @@ def run(ctx):
     bases = []
     i = 0
     while len(bases) < n_base:
-        w = gen_workload(seeds.derive(ctx.seed, PROP, "w", i), samples=seeds.derive(ctx.seed, PROP, "ns", i).randint(2, 6))
+        nrng = seeds.derive(ctx.seed, PROP, "ns", i)
+        # inference only is cheap: long sample lists (literal limits, batch sizes) are affordable here
+        w = gen_workload(seeds.derive(ctx.seed, PROP, "w", i),
+                         samples=nrng.choice([nrng.randint(2, 6)] * 8 + [nrng.randint(14, 40)] * 2),
+                         bulk=nrng.choice([0] * 70 + [1001, 1500, 2100]))
         i += 1
         if all(len(s) >= 1 for _, s in w["models"]) and any(len(s) >= 2 for _, s in w["models"]):
             bases.append(w)
